@@ -123,6 +123,21 @@ fn edge64() -> impl Strategy<Value = u64> {
         1 => (0u32..64).prop_map(|b| !(1u64 << b)),
         1 => Just(0x0103_070f_1f3f_7fffu64),
         1 => Just(!0x0103_070f_1f3f_7fffu64),
+        1 => any::<u32>().prop_map(|x| 0xfe80_0000_0000_0000u64 | x as u64),
+        1 => any::<u32>().prop_map(|x| 0x2001_0db8_0000_0000u64 | x as u64),
+        1 => Just(0x0064_ff9b_0000_0000u64),
+    ]
+}
+
+/// low 64 bits of an IPv6 address: random, or the special forms whose upper 64 bits are zero
+/// (IPv4-mapped ::ffff:a.b.c.d, IPv4-compatible ::a.b.c.d, loopback ::1, unspecified ::)
+fn low64() -> impl Strategy<Value = u64> {
+    prop_oneof![
+        4 => any::<u64>(),
+        1 => any::<u32>().prop_map(|v4| 0xffff_0000_0000u64 | v4 as u64),
+        1 => any::<u32>().prop_map(|v4| v4 as u64),
+        1 => Just(1u64),
+        1 => Just(0u64),
     ]
 }
 
@@ -135,7 +150,7 @@ impl Stage for Addrs {
         tier.pick(200_000, 4_000_000)
     }
     fn strategy(&self, _t: Tier) -> BoxedStrategy<One> {
-        (any::<bool>(), edge64(), any::<u64>(), 1u8..5)
+        (any::<bool>(), prop_oneof![3 => edge64(), 1 => Just(0u64)], low64(), 1u8..5)
             .prop_map(|(v6, hi, lo, draws)| One {
                 v6,
                 hi: if v6 { hi } else { hi & 0xffff_ffff },
@@ -158,7 +173,7 @@ impl Stage for Addrs {
         Outcome::pass(masked_differs).label(if c.v6 { "v6" } else { "v4" })
     }
     fn rule(&self) -> String {
-        "random and edge (all-zero, all-one, single-bit, mask, inverted mask) IPv4 addresses and IPv6 /64 prefixes, 1..4 draws of the internal randomness each; non-trivial: the BEP42 mask actually changes the address".into()
+        "random and edge (all-zero, all-one, single-bit, mask, inverted mask, link-local, documentation, NAT64) IPv4 addresses and IPv6 /64 prefixes, IPv6 low halves random or special (IPv4-mapped, IPv4-compatible, ::1, ::), 1..4 draws of the internal randomness each; non-trivial: the BEP42 mask actually changes the address".into()
     }
 }
 
